@@ -652,6 +652,19 @@ class TrioWorld(WorldBase):
                 self.started = True
                 await self._done.wait()
                 self.finish()
+                # tear down: hypercorn shields its writes from cancellation, so release every parked
+                # transport operation by force before cancelling (nothing is recorded any more)
+                for st in self.streams.values():
+                    st.closed = True
+                    st.peer_paused = False
+                    st._send_lot.unpark_all()
+                    st._recv_lot.unpark_all()
+                for lst in self.listeners:
+                    lst.closed = True
+                    lst._lot.unpark_all()
+                for evs in self.gate_waiters.values():
+                    for e in list(evs):
+                        e.set()
                 root.cancel_scope.cancel()
         except BaseException as e:
             if self.harness_exc is None and not isinstance(e, trio.Cancelled):
